@@ -81,6 +81,13 @@ CLAIMED["C01"] = ("verif-net", "DESIGN.md §3 C01",
     "and whenever an independent valley-free reachability search over the generated topology finds a route, at least one path is offered. Evidence, not proof.",
     NET_NOTE, NET_TECH)
 
+CLAIMED["C11"] = ("verif-net", "DESIGN.md §3 C11",
+    "Network reading of the property, on the same drawn topologies and control-plane-built paths: every offered non-peering path is walked through pocketscion's real routers forwards and, reversed by the SDK from the delivered packet, backwards (authentic paths verify at every hop in both directions with per-AS keys); "
+    "copies of the packet are replayed at ASes already passed; and in flight, before a drawn AS step, one or two bits of an authenticated field of a hop field still to be verified (ExpTime, ConsIngress, ConsEgress, MAC), of a segment's SegID or of its timestamp are flipped. "
+    "After every real router step: a refused packet leaves with exactly the path bytes it arrived with; an accepted one has a strictly larger current-hop pointer (or was delivered); accepted steps never exceed the hop-field count; a tampered packet is never delivered and is refused no later than at the AS owning the tampered hop field. "
+    "The exhaustive enumeration over small segment shapes and pointer positions the property also asks for is input enumeration and is not claimed. Evidence, not proof.",
+    NET_NOTE, NET_TECH)
+
 NOT_APPLICABLE = {
     "C02": "pure function of a byte string (no stream, timer, shared state or fault in it): not a simulation target; needs exhaustive enumeration / a memory checker",
     "C03": "pure function of a packet model / byte string: needs an independent reference decoder and boundary-directed input generation, not a scheduler",
@@ -96,7 +103,6 @@ NOT_APPLICABLE = {
 
 # planned but not yet built engines: listed as not claimed until their check exists
 PENDING = {
-    "C11": "not claimed yet: its network reading (failure atomicity and monotonicity per AS step, tamper detection in flight) is planned on verif-net; until that check exists nothing is claimed",
     "C14": "not claimed yet: SCMP ping-pong through pocketscion's dispatcher and the socket receive loop is planned; until that check exists nothing is claimed",
 }
 
